@@ -9,3 +9,15 @@ for p in $(python3 -c "import json; print(' '.join(c['property_id'] for c in jso
   e=$(date +%s)
   echo "$p exit=$code $((e-s))s $(grep -c '^VIOLATION' /tmp/run_all_$p.out) violations $(grep -c '^KNOWN-FINDING' /tmp/run_all_$p.out) known"
 done
+python3-vt - <<'PY'
+import json, jsonschema, glob
+s = json.load(open('/root/.vp/EVIDENCE.schema.json'))
+bad = 0
+for f in sorted(glob.glob('/verif/evidence/*.json')):
+    try:
+        jsonschema.validate(json.load(open(f)), s)
+    except Exception as e:
+        bad += 1
+        print('EVIDENCE INVALID', f, str(e)[:200])
+print('evidence files valid' if not bad else f'{bad} invalid evidence files')
+PY
